@@ -26,12 +26,15 @@ INPLACE = [
     "{t}[[0, -1]] = c2", "{t}[Mt] = y0", "{t}[1:] = {o}[:-1]", "{t}[...] = {o}", "{t}[0] = {o}[-1]",
     "{t} *= k", "{t} += y0", "{t} -= c1", "{t} /= k", "{t} **= 2", "{t} += {o}", "{t} *= yv",
     "mg.multiply({t}, k, out={t})", "mg.add({o}, c2, out={t})", "mg.exp({o}, out={t}, where=Mt)", "mg.multiply({o}, y0, out={t}, where=Mt)",
+    "mg.multiply({o}, y0, out={t}, where=Mb)", "mg.add({o}, c2, out={t}, where=Mb)",
     "{t}.shape = (3, 2)", "{t}.shape = (6,)", "{t}.shape = (1, 6)",
 ]
 INPLACE_Q = ["{t}[...] = y0", "{t}[1:] = y0", "{t}[0] = c1", "{t}[:1] = c1", "{t}[[0, 0]] = y2", "{t}[Mt] = y0", "{t}[1:] = {o}[:-1]",
-             "{t} *= k", "{t} += y0", "mg.multiply({o}, y0, out={t}, where=Mt)", "mg.add({o}, c2, out={t})", "{t}.shape = (3, 2)"]
+             "{t} *= k", "{t} += y0", "mg.multiply({o}, y0, out={t}, where=Mt)", "mg.multiply({o}, y0, out={t}, where=Mb)", "mg.add({o}, c2, out={t})",
+             "{t}.shape = (3, 2)"]
 
-BASES = {"flat6": (6,), "mat23": (2, 3)}
+BASES = {"flat6": (6,), "mat23": (2, 3), "mat23F": (2, 3), "mat32F": (3, 2)}
+F_ORDERED = {"mat23F", "mat32F"}  # the base tensor owns NON C-ordered memory (its data is the transpose of a C-ordered array)
 
 
 TENSOR_NAMES = ("t", "v", "w", "u", "a", "b")
@@ -49,9 +52,11 @@ def twin_line(line):
 class Setup:
     """symbolic inputs shared by both interpreters"""
 
-    def __init__(self, base_shape, mg):
+    def __init__(self, base_shape, mg, f_ordered=False, ro_base=False):
         self.base_shape = base_shape
-        self.t = symarr("t", base_shape)
+        self.f_ordered = f_ordered
+        self.ro_base = ro_base  # the base tensor wraps natively read-only memory (copy=False)
+        self.t = symarr("t", base_shape[::-1]).T if f_ordered else symarr("t", base_shape)
         self.y0 = symarr("y0", ())
         self.yv = symarr("yv", (base_shape[-1],))
         self.y2 = symarr("y2", (2,))
@@ -67,20 +72,26 @@ class Setup:
 
     def env_mg(self):
         mg = self.mg
-        env = {"mg": mg, "np": np, "t": mg.Tensor(self.t), "y0": mg.Tensor(self.y0), "yv": mg.Tensor(self.yv),
+        if self.ro_base:
+            ro = np.array(self.t, dtype=object)
+            ro.flags.writeable = False
+            tbase = mg.Tensor(ro, copy=False)
+        else:
+            tbase = mg.Tensor(self.t)
+        env = {"mg": mg, "np": np, "t": tbase, "y0": mg.Tensor(self.y0), "yv": mg.Tensor(self.yv),
                "y2": mg.Tensor(self.y2), "k": np.array(self.k, dtype=object), "q": self.q,
                "c1": np.array(self.c1, dtype=object), "c2": np.array(self.c2, dtype=object)}
         return env
 
     def env_np(self):
-        env = {"np": np, "t": np.array(self.t, dtype=object), "y0": np.array(self.y0, dtype=object),
+        env = {"np": np, "t": (np.array(self.t.T, dtype=object).T if self.f_ordered else np.array(self.t, dtype=object)), "y0": np.array(self.y0, dtype=object),
                "yv": np.array(self.yv, dtype=object), "y2": np.array(self.y2, dtype=object), "k": np.array(self.k, dtype=object),
                "q": self.q, "c1": np.array(self.c1, dtype=object), "c2": np.array(self.c2, dtype=object)}
         return env
 
     def env_float(self):
         rng = np.random.RandomState(1)
-        env = {"np": np, "t": rng.rand(*self.base_shape) + 0.5, "y0": np.array(1.25), "yv": rng.rand(self.base_shape[-1]) + 0.5,
+        env = {"np": np, "t": ((rng.rand(*self.base_shape[::-1]) + 0.5).T if getattr(self, "f_ordered", False) else rng.rand(*self.base_shape) + 0.5), "y0": np.array(1.25), "yv": rng.rand(self.base_shape[-1]) + 0.5,
                "y2": rng.rand(2) + 0.5, "k": np.array(0.75), "q": [np.array(1.5), np.array(2.5), np.array(3.5)],
                "c1": np.array(2.5), "c2": np.array(1.5)}
         return env
@@ -97,10 +108,12 @@ def mask_for(shape):
 
 
 def run_line(line, env, twin=False):
-    if "Mt" in line:
-        # mask of the shape of the in-place target
+    if "Mt" in line or "Mb" in line:
+        # mask of the shape of the in-place target / of its last axis only (broadcast against the target)
         tgt = _target_name(line)
-        env["Mt"] = mask_for(np.shape(env[tgt].data if hasattr(env[tgt], "data") and not isinstance(env[tgt], np.ndarray) else env[tgt]))
+        shp = np.shape(env[tgt].data if hasattr(env[tgt], "data") and not isinstance(env[tgt], np.ndarray) else env[tgt])
+        env["Mt"] = mask_for(shp)
+        env["Mb"] = mask_for(shp[-1:])
     exec(twin_line(line) if twin else line, env)
     if twin:
         # NumPy hands back a *scalar* where MyGrad has a 0-d tensor; its array counterpart is a 0-d array
@@ -122,10 +135,11 @@ def _target_name(line):
 
 
 
-def well_typed(lines, base_shape):
+def well_typed(lines, base_shape, f_ordered=False):
     """dry run of the NumPy twin on floats; False if NumPy itself rejects a statement"""
     s = Setup.__new__(Setup)
     s.base_shape = base_shape
+    s.f_ordered = f_ordered
     env = Setup.env_float(s)
     try:
         for ln in lines:
@@ -145,6 +159,7 @@ def programs(base, h, quick=True, require_inplace=True, max_views=2):
     NV = NONVIEWS_Q if quick else NONVIEWS
     IP = INPLACE_Q if quick else INPLACE
     shape = BASES[base]
+    fo = base in F_ORDERED
     out = []
 
     def rec(lines, names, nviews):
@@ -172,7 +187,7 @@ def programs(base, h, quick=True, require_inplace=True, max_views=2):
                 else:
                     cands.append((tpl.format(t=t), names, nviews))
         for ln, nm, nv in cands:
-            if well_typed(lines + [ln], shape):
+            if well_typed(lines + [ln], shape, fo):
                 rec(lines + [ln], nm, nv)
 
     rec([], ["t"], 0)
